@@ -191,6 +191,68 @@ example : (∀ d', d' <+: absPath [] true [[], ['p'], ['q'], ['r']] → ((fsOf e
   | [a, b, c], t, ht => simp at ht; obtain ⟨rfl, rfl, rfl, _⟩ := ht; decide
   | _ :: _ :: _ :: _ :: _, _, _ => simp at hlen
 
+/-! ### one loader object used several times
+
+`LoaderObj` (`Model/Loader.lean`) stores only the explicit start it was constructed with, if any; `runLoader`
+is the trace semantics of a history (chdir / filesystem changes / loads / reads of `.start`) on one object.
+The harness replays the same histories on one real `FilesystemLoader`. -/
+
+/-- a loader WITHOUT explicit start searches from the working directory current AT THE TIME OF THE CALL:
+    the directories visited are that directory and its ancestors, whatever the loader was used for before -/
+theorem default_start_is_cwd_of_the_call (fs : FS) (cwd : Path) (name : Name) (h : ∀ c ∈ cwd, Plain c) :
+    (LoaderObj.mk none).findAt fs cwd name = findFrom fs name (walkDirs cwd) ∧
+    (LoaderObj.mk none).findAt fs cwd name = find fs cwd false [] name := by
+  have h1 : absPath cwd true ([] :: cwd) = cwd := absPath_getcwd cwd cwd h
+  have h2 : absPath cwd false [] = cwd := by simp [absPath]
+  refine ⟨?_, ?_⟩
+  · show findFrom fs name (walkDirs (absPath cwd true ([] :: cwd))) = _
+    rw [h1]
+  · show findFrom fs name (walkDirs (absPath cwd true ([] :: cwd))) = findFrom fs name (walkDirs (absPath cwd false []))
+    rw [h1, h2]
+
+/-- a loader WITH an explicit absolute start (argument or `tasks.search_root`) does not follow the working directory -/
+theorem explicit_absolute_start_ignores_cwd (raw : List Name) (fs : FS) (cwd cwd' : Path) (name : Name) :
+    (LoaderObj.mk (some (true, raw))).loadAt fs cwd name = (LoaderObj.mk (some (true, raw))).loadAt fs cwd' name := by
+  simp [LoaderObj.loadAt, LoaderObj.findAt, LoaderObj.startAt, find, absPath]
+
+/-- the answer of a load depends only on the loader's construction-time start and on the process state
+    (working directory, filesystem) AT THE TIME OF THE CALL, never on earlier loads, finds or reads of
+    `.start`: a history splits at any point into "reach that process state, then go on" -/
+theorem history_load_depends_only_on_current_world (l : LoaderObj) (w : World) (pre post : List LStep) :
+    runLoader l w (pre ++ post) = runLoader l w pre ++ runLoader l (worldAfter w pre) post :=
+  runLoader_append l pre post w
+
+/-- HEADLINE over histories.  Whatever one loader without explicit start was used for before - in whichever
+    directories - what a load reports as project directory is at or above the CURRENT working directory,
+    contains a module or package of that name in the CURRENT filesystem, and no directory strictly between it
+    and the current working directory (that directory included) contains one. -/
+theorem history_load_is_nearest_of_current_cwd (w : World) (pre : List LStep) (name : Name) (res : Loaded)
+    (hcwd : ∀ c ∈ (worldAfter w pre).cwd, Plain c)
+    (h : (runLoader (LoaderObj.mk none) w (pre ++ [LStep.load name])).getLast? = some (.ok res)) :
+    res.parent <+: (worldAfter w pre).cwd ∧ hasCandidate (worldAfter w pre).fs name res.parent = true ∧
+      ∀ d', d' <+: (worldAfter w pre).cwd → res.parent <+: d' → d' ≠ res.parent →
+        hasCandidate (worldAfter w pre).fs name d' = false := by
+  rw [runLoader_append] at h
+  simp only [runLoader, List.getLast?_append, List.getLast?_singleton, Option.some_or,
+    Option.some.injEq] at h
+  have hl : loadFrom (worldAfter w pre).fs (worldAfter w pre).cwd true ([] :: (worldAfter w pre).cwd) name = .ok res := h
+  have hf := load_parent_is_found_dir _ _ _ _ _ _ hl
+  have hn := find_nearest _ _ _ _ _ _ (noEmpty_of_plain _ hcwd) hf
+  rw [absPath_getcwd _ _ hcwd] at hn
+  exact hn
+
+/-- non-vacuity: ONE loader without explicit start, used in `/p/q/r` (finds the module of `/p/q`), then - after
+    `.start` was read and the process changed to `/p` - used again: it finds the package of `/p`; asked for
+    another name in between: not found; a loader with the explicit start `/p/q/r` keeps finding `/p/q` -/
+example : runLoader (LoaderObj.mk none) ⟨fsOf exLay, [['p'], ['q'], ['r']]⟩
+      [.load "tasks".toList, .readStart, .chdir [['p']], .load "other".toList, .load "tasks".toList] =
+    [.ok ⟨[['p'], ['q'], "tasks.py".toList], [['p'], ['q']], [['p'], ['q']]⟩, .collectionNotFound,
+     .ok ⟨[['p'], "tasks".toList, initPy], [['p'], "tasks".toList], [['p']]⟩] := by decide
+example : runLoader (LoaderObj.mk (some (true, [[], ['p'], ['q'], ['r']]))) ⟨fsOf exLay, [['p'], ['q'], ['r']]⟩
+      [.load "tasks".toList, .readStart, .chdir [['p']], .load "tasks".toList] =
+    [.ok ⟨[['p'], ['q'], "tasks.py".toList], [['p'], ['q']], [['p'], ['q']]⟩,
+     .ok ⟨[['p'], ['q'], "tasks.py".toList], [['p'], ['q']], [['p'], ['q']]⟩] := by decide
+
 /-- a candidate that sits in the filesystem root: `/mycoll/__init__.py`, start `/p/q` -/
 def exRootLay : Layout :=
   [([], [['p'], "mycoll".toList]), (["mycoll".toList], [initPy]), ([['p']], [['q']]), ([['p'], ['q']], [])]
